@@ -387,17 +387,18 @@ class MBTilesLevelCache(TileCacheBase):
         return self._get_level(tile.coord[2]).load_tile(tile, with_metadata=with_metadata, dimensions=dimensions)
 
     def load_tiles(self, tiles, with_metadata=False, dimensions=None):
-        level = None
+        # each level has its own database: ask every level for its tiles
+        level_tiles = {}
         for tile in tiles:
             if tile.source or tile.coord is None:
                 continue
-            level = tile.coord[2]
-            break
+            level_tiles.setdefault(tile.coord[2], []).append(tile)
 
-        if level is None:
-            return True
-
-        return self._get_level(level).load_tiles(tiles, with_metadata=with_metadata, dimensions=dimensions)
+        all_loaded = True
+        for level, missing in level_tiles.items():
+            if not self._get_level(level).load_tiles(missing, with_metadata=with_metadata, dimensions=dimensions):
+                all_loaded = False
+        return all_loaded
 
     def remove_tile(self, tile, dimensions=None):
         if tile.coord is None:
